@@ -66,6 +66,8 @@ def table(d):
 def patterns_of(dto):
     pats, durs = set(), set()
     for t in dto.get("targets", []):
+        if t is None:
+            continue
         for i in t.get("inputs", []):
             if any(c in i for c in "*?[{"):
                 pats.add(i)
@@ -280,51 +282,56 @@ def workspace_files(entries):
     return files
 
 
-def model_files(ctx, tabs, entries, files, scratch):
-    """model-side description of a workspace: per BUILD file {pkg, dto, globs, durs}. For Makefile / script files the DTO
-    comes from the model's own scanner. entries: (dir, name, text, dto-or-None)."""
-    # scanner DTOs
-    scan = [(k, e) for k, e in enumerate(entries) if e[3] is None]
-    dtos = {k: e[3] for k, e in enumerate(entries) if e[3] is not None}
+def model_files_batch(ctx, tabs, cases, scratch):
+    """model-side description of workspaces, batched: cases = [(entries, files)], entries = (dir, name, text, dto-or-None).
+    Per BUILD file {pkg, dto, globs, durs}; for Makefile / script files the DTO comes from the model's own scanner.
+    Returns one list (or "ERR" when a scanner reports an error) per case."""
+    scan = [(c, k, e) for c, (entries, _) in enumerate(cases) for k, e in enumerate(entries) if e[3] is None]
+    dtos = {(c, k): e[3] for c, (entries, _) in enumerate(cases) for k, e in enumerate(entries) if e[3] is not None}
     if scan:
-        blocks = ctx.model([{"op": "loader.mk.blocks", "text": e[2]} for _, e in scan])
-        tabs.need_yaml([c for b in blocks for c in b["blocks"]])
+        blocks = ctx.model([{"op": "loader.mk.blocks", "text": e[2]} for _, _, e in scan])
+        tabs.need_yaml([b for r in blocks for b in r["blocks"]])
         reqs = []
-        for (k, e), b in zip(scan, blocks):
+        for (c, k, e), b in zip(scan, blocks):
             dec = tabs.decode_table(b["blocks"])
             if e[1] == "Makefile":
                 reqs.append({"op": "loader.mk", "text": e[2], "decode": dec})
             else:
                 reqs.append({"op": "loader.script", "name": e[1], "text": e[2], "decode": dec})
-        for (k, e), r in zip(scan, ctx.model(reqs)):
+        for (c, k, e), r in zip(scan, ctx.model(reqs)):
             if r.get("err"):
-                dtos[k] = "ERR"
+                dtos[(c, k)] = "ERR"
             elif e[1] == "Makefile":
-                dtos[k] = {"targets": r["targets"]} if r["found"] else "NOMATCH"
+                dtos[(c, k)] = {"targets": r["targets"]} if r["found"] else "NOMATCH"
             else:
-                dtos[k] = {"targets": [r["target"]]}
-    # parameter tables
-    greqs, gidx = [], []
-    for k, e in enumerate(entries):
-        d = dtos[k]
-        if isinstance(d, str):
-            continue
-        pats, durs = patterns_of(d)
-        tabs.need_dur(durs)
-        if pats:
-            greqs.append({"op": "glob", "dir": scratch, "files": files, "pkg": e[0], "patterns": sorted(pats)})
-            gidx.append(k)
+                dtos[(c, k)] = {"targets": [r["target"]]}
+    greqs, gidx, alldurs = [], [], set()
+    for c, (entries, files) in enumerate(cases):
+        for k, e in enumerate(entries):
+            d = dtos[(c, k)]
+            if isinstance(d, str):
+                continue
+            pats, durs = patterns_of(d)
+            alldurs |= durs
+            if pats:
+                greqs.append({"op": "glob", "dir": scratch, "files": files, "pkg": e[0], "patterns": sorted(pats)})
+                gidx.append((c, k))
+    tabs.need_dur(sorted(alldurs))
     gres = dict(zip(gidx, ctx.impl(greqs))) if greqs else {}
     out = []
-    for k, e in enumerate(entries):
-        d = dtos[k]
-        if d == "NOMATCH":
-            continue
-        if d == "ERR":
-            return "ERR"
-        pats, durs = patterns_of(d)
-        out.append({"pkg": pkg_key(e[0]), "dto": d, "globs": table(gres[k]["table"]) if k in gres else [],
-                    "durs": [[s, tabs.dur[s]] for s in sorted(durs)]})
+    for c, (entries, files) in enumerate(cases):
+        mf = []
+        for k, e in enumerate(entries):
+            d = dtos[(c, k)]
+            if d == "NOMATCH":
+                continue
+            if d == "ERR":
+                mf = "ERR"
+                break
+            pats, durs = patterns_of(d)
+            mf.append({"pkg": pkg_key(e[0]), "dto": d, "globs": table(gres[(c, k)]["table"]) if (c, k) in gres else [],
+                       "durs": [[s, tabs.dur[s]] for s in sorted(durs)]})
+        out.append(mf)
     return out
 
 
@@ -349,6 +356,7 @@ def only_mk_fields_differ(a, b):
 def cross_format_part(ctx, tabs, rng, n, scratch):
     stats = ctx.coverage.setdefault("cross_format", {"definitions": 0, "loaded_ok": 0, "load_errors": 0, "makefile_renderings": 0})
     distinct = set()
+    cases, ireqs = [], []
     for case in range(n):
         mk = rng.random() < 0.4
         dto = G.gen_package(rng, mk=mk, faults=rng.random() < 0.35)
@@ -356,22 +364,29 @@ def cross_format_part(ctx, tabs, rng, n, scratch):
             dto["default_platforms"] = rng.choice([[], ["linux/amd64"]])
         d = rng.choice(G.PKGS)
         fmts = [f for f in FORMATS if (f != "Makefile" or mk) and (f != "BUILD.star" or dto["default_platforms"] is None)]
-        # Makefile goals are whatever precedes the first ':'; a duplicate goal is still a duplicate label
-        ireqs, per = [], []
+        if G.has_null(dto):
+            fmts = ["BUILD.json", "BUILD.yaml"]
+        per = []
         for f in fmts:
             text = render(dto, f, rng)
-            entries = [(d, f, text)]
-            files = workspace_files(entries)
+            files = workspace_files([(d, f, text)])
             per.append((f, text, files))
             ireqs.append({"op": "load.packages", "dir": scratch, "files": files, "workers": rng.choice([1, 2, 16]), "timeout_s": 20})
-        io = G.run_resilient(ctx, ireqs)
-        if io is None:
-            return False
+        cases.append((dto, d, mk, fmts, per))
+    io = G.run_resilient(ctx, ireqs)
+    if io is None:
+        return False
+    mfs = model_files_batch(ctx, tabs, [([(d, fmts[0], per[0][1], dto)], per[0][2]) for dto, d, mk, fmts, per in cases], scratch)
+    mos = ctx.model([{"op": "loader.graph", "files": mf} for mf in mfs])
+    pos = 0
+    for case, ((dto, d, mk, fmts, per), mo) in enumerate(zip(cases, mos)):
+        rs = io[pos:pos + len(fmts)]
+        pos += len(fmts)
         stats["definitions"] += 1
         stats["makefile_renderings"] += 1 if mk else 0
         flat = []
         crashed = False
-        for (f, text, files), r in zip(per, io):
+        for (f, text, files), r in zip(per, rs):
             desc = bad_reply(r)
             if desc:
                 crashed = True
@@ -390,8 +405,6 @@ def cross_format_part(ctx, tabs, rng, n, scratch):
                               {"kind": "oracle", "oracle": "cross-format agreement", "dto": dto, "pkg": d, "formats": [fmts[0], f],
                                "texts": {fmts[0]: per[0][1], f: text}, "loaded": {fmts[0]: base, f: fl}}, signature=sig)
         # model
-        mf = model_files(ctx, tabs, [(d, fmts[0], per[0][1], dto)], per[0][2], scratch)
-        mo = ctx.model([{"op": "loader.graph", "files": mf}])[0]
         if "error" in mo:
             ctx.violation("model driver error", {"kind": "correspondence", "correspondence": "loader.graph", "dto": dto, "model": mo}, found_input=False)
             continue
@@ -418,6 +431,8 @@ def cross_format_part(ctx, tabs, rng, n, scratch):
 def multi_part(ctx, tabs, rng, n, scratch):
     """several packages, mixed formats, same-directory merges; worker counts 1/2/16 and arrival orders."""
     stats = ctx.coverage.setdefault("workspaces", {"cases": 0, "ok": 0, "error": 0, "same_dir_merges": 0, "files": 0})
+    cases, ireqs = [], []
+    WORKERS = (1, 2, 16, 16)
     for case in range(n):
         dirs = rng.sample(G.PKGS, rng.choice([1, 2, 3, 4]))
         entries = []
@@ -426,28 +441,48 @@ def multi_part(ctx, tabs, rng, n, scratch):
             names = rng.sample(["BUILD.json", "BUILD.yaml", "BUILD.star", "Makefile", "run.grog.sh", "tool.grog.py"], k)
             if k > 1:
                 stats["same_dir_merges"] += 1
-            for nm in names:
-                faults = rng.random() < 0.1
+            # files of one directory mostly define disjoint names (a collision is a legitimate load error)
+            shuffled = rng.sample(G.NAMES, len(G.NAMES))
+            pools = [shuffled[i::k] for i in range(k)] if rng.random() < 0.85 else [G.NAMES] * k
+            for nm, pool in zip(names, pools):
+                faults = rng.random() < 0.04
                 if nm.endswith(".grog.sh") or nm.endswith(".grog.py"):
-                    t = G.gen_target(rng, rng.choice(G.NAMES), G.NAMES, mk=True, faults=faults)
+                    t = G.gen_target(rng, rng.choice(pool), G.NAMES, mk=True, faults=faults)
                     t["outputs"] = []
                     entries.append((d, nm, G.render_script(t), None))
                 elif nm == "Makefile":
-                    dto = G.gen_package(rng, mk=True, faults=faults, max_targets=2)
+                    dto = G.gen_package(rng, mk=True, faults=faults, max_targets=2, pool=pool)
                     entries.append((d, nm, G.render_makefile(dto, rng), None))
                 else:
-                    dto = G.gen_package(rng, faults=faults, max_targets=2)
+                    dto = G.gen_package(rng, faults=faults, max_targets=2, pool=pool)
+                    if nm == "BUILD.star":          # Starlark cannot express a null list entry
+                        dto["targets"] = [t for t in dto["targets"] if t is not None]
+                        dto["aliases"] = [a for a in dto["aliases"] if a is not None]
                     entries.append((d, nm, render(dto, nm, rng), dto))
         files = workspace_files([(d, nm, t) for d, nm, t, _ in entries])
         stats["files"] += len(entries)
-        ireqs = [{"op": "load.packages", "dir": scratch, "files": files, "workers": w, "timeout_s": 20} for w in (1, 2, 16, 16)]
-        io = G.run_resilient(ctx, ireqs)
-        if io is None:
-            return False
-        ctx.coverage["evaluations"] += len(ireqs)
+        cases.append((entries, files))
+        ireqs += [{"op": "load.packages", "dir": scratch, "files": files, "workers": w, "timeout_s": 20} for w in WORKERS]
+    io = G.run_resilient(ctx, ireqs)
+    if io is None:
+        return False
+    ctx.coverage["evaluations"] += len(ireqs)
+    mfs = model_files_batch(ctx, tabs, cases, scratch)
+    mreqs, midx = [], []
+    for c, mf in enumerate(mfs):
+        if mf == "ERR":
+            continue
+        for o in (mf, list(reversed(mf)), rng.sample(mf, len(mf))):
+            mreqs.append({"op": "loader.graph", "files": o})
+            midx.append(c)
+    mres = {}
+    for c, r in zip(midx, ctx.model(mreqs)):
+        mres.setdefault(c, []).append(flatten_model(r))
+    for case, (entries, files) in enumerate(cases):
+        rs = io[case * len(WORKERS):(case + 1) * len(WORKERS)]
         flat = []
         crashed = False
-        for r in io:
+        for r in rs:
             desc = bad_reply(r)
             if desc:
                 crashed = True
@@ -460,18 +495,13 @@ def multi_part(ctx, tabs, rng, n, scratch):
         stats["cases"] += 1
         if any(f != flat[0] for f in flat):
             ctx.violation("the loaded graph depends on the worker count / arrival order",
-                          {"kind": "oracle", "oracle": "worker-count independence", "files": files, "workers": [1, 2, 16, 16], "loaded": flat},
+                          {"kind": "oracle", "oracle": "worker-count independence", "files": files, "workers": list(WORKERS), "loaded": flat},
                           signature="load-depends-on-worker-count")
-        mf = model_files(ctx, tabs, entries, files, scratch)
-        if mf == "ERR":
-            mflats = ["ERR"]
-        else:
-            orders = [mf, list(reversed(mf)), rng.sample(mf, len(mf))]
-            mflats = [flatten_model(r) for r in ctx.model([{"op": "loader.graph", "files": o} for o in orders])]
+        mflats = mres.get(case, ["ERR"])
         stats["ok" if mflats[0] != "ERR" else "error"] += 1
         if any(m != flat[0] for m in mflats):
             ctx.violation("workspace load: model and implementation disagree",
-                          {"kind": "correspondence", "correspondence": "LoadPackages (merge) vs GrogModel.Loader.loadGraph",
+                          {"kind": "correspondence", "correspondence": "LoadPackages (merge) vs GrogModel.Loader.loadWorkspace",
                            "files": files, "impl": flat[0], "model": mflats}, signature="corr:workspace", found_input=False)
         if case < 1:
             ctx.sample({"workspace_files": [f[0] for f in files if f[1] != "data"], "outcome": "ERR" if flat[0] == "ERR" else f"{len(flat[0])} nodes"})
@@ -544,7 +574,7 @@ def run(ctx):
     tabs = Tables(ctx)
     if ctx.impl_binary() is None:
         return
-    n_scan, n_cross, n_multi, n_crash = (500, 220, 60, 500) if quick else (6000, 2500, 600, 8000)
+    n_scan, n_cross, n_multi, n_crash = (1500, 700, 160, 1500) if quick else (12000, 6000, 1500, 15000)
     ctx.coverage["rule"] = (f"(a) {n_scan} Makefile/script texts assembled from annotation line fragments (incl. unicode spaces, CR, 64 KiB lines) "
                             f"plus corrupted renderings, real Load vs model scanner; (b) {n_cross} generated package definitions (≈35% with injected "
                             "faults: bad labels, duplicate names, bad globs, bad outputs, bad timeouts) rendered to JSON/YAML/Starlark(/Makefile) and "
